@@ -118,6 +118,10 @@ def check(case):
         extra.append("--logging-filter=%s" % cfg["logging_filter"])
     from ..harness import make_config
     config = make_config(cfg, extra_args=extra)
+    if case.get("capture_hooks"):
+        # feature / rule / scenario / step / tag hooks wrapped with the documented behave.log_capture.capture
+        # decorator (the hooks themselves log nothing then): the scenario's own capture must be untouched
+        prog["capture_hooks"] = case["capture_hooks"]
     setup_level = case.get("setup_level") if cap["log"] else None
     if setup_level:
         cfg["setup_level"] = setup_level
@@ -139,7 +143,8 @@ def check(case):
                 where = "b" if name == "before_step" else "a"
                 sys.stdout.write(marker("stdout", scen, uid, where))
                 sys.stderr.write(marker("stderr", scen, uid, where))
-                logging.getLogger("vf").warning(marker("log", scen, uid, where))
+                if not case.get("capture_hooks"):
+                    logging.getLogger("vf").warning(marker("log", scen, uid, where))
             return
         if name in ("before_scenario", "after_scenario", "after_feature", "before_feature"):
             root = logging.getLogger()
@@ -208,6 +213,7 @@ def check(case):
         statuses = ref.steps.get(name) or []
         proc = ref.processed.get(name) or []
         sofar = []      # markers emitted in this scenario so far: (kind, text, level, logger)
+        hook_kinds = KINDS if not case.get("capture_hooks") else ("stdout", "stderr")
         for idx, (s, status, p) in enumerate(zip(steps, statuses, proc)):
             if not p or status == "undefined":
                 continue
@@ -216,7 +222,7 @@ def check(case):
             called = (name, s["uid"]) in set(map(tuple, run.calls))
             events = []
             if hook_emit:
-                events += [(k, marker(k, name, s["uid"], "b"), "WARNING", "vf") for k in KINDS]
+                events += [(k, marker(k, name, s["uid"], "b"), "WARNING", "vf") for k in hook_kinds]
             if called and outcome != "convert":
                 lvl = s["emit"]["_level"]
                 events += [(k, marker(k, name, s["uid"]), lvl, s["emit"]["logger"]) for k in KINDS]
@@ -227,12 +233,12 @@ def check(case):
                     # which sub-step hooks run is decided by the reference model (a fault in a
                     # sub-step hook ends the nested execution)
                     if ("before_step", sub["uid"]) in hooked:
-                        events += [(k, marker(k, name, sub["uid"], "b"), "WARNING", "vf") for k in KINDS]
+                        events += [(k, marker(k, name, sub["uid"], "b"), "WARNING", "vf") for k in hook_kinds]
                     if ("after_step", sub["uid"]) in hooked:
-                        events += [(k, marker(k, name, sub["uid"], "a"), "WARNING", "vf") for k in KINDS]
+                        events += [(k, marker(k, name, sub["uid"], "a"), "WARNING", "vf") for k in hook_kinds]
             post = []
             if hook_emit:
-                post = [(k, marker(k, name, s["uid"], "a"), "WARNING", "vf") for k in KINDS]
+                post = [(k, marker(k, name, s["uid"], "a"), "WARNING", "vf") for k in hook_kinds]
             sofar += events
             # destinations
             for k, text, lvl, logger in events + post:
@@ -294,6 +300,8 @@ def check(case):
         res.label("logging-level/filter")
     if setup_level:
         res.label("setup_logging-in-before_all")
+    if case.get("capture_hooks"):
+        res.label("@capture-decorated-hooks")
     if any(o == "interrupt" for f, i in insts for o in [step_outcome(s, i["rowdict"]) for s in all_steps_of(f, i)]):
         res.label("interrupt")
     if any(s.get("o") == "nest" for f in prog["features"] for it in f["items"] if it["k"] == "s" for s in it["steps"]):
@@ -397,6 +405,8 @@ def random_case(draw):
             case["setup_level"] = draw(st.sampled_from(["DEBUG", "INFO", "WARNING", "ERROR"]))
     elif not prog["cfg"]["capture_log"]:
         case["levels"] = draw(st.lists(st.sampled_from(["WARNING", "ERROR"]), min_size=1, max_size=2))
+    if draw(st.integers(0, 3)) == 0:
+        case["capture_hooks"] = draw(st.sampled_from(["plain", "error"]))
     # step-hook faults
     if draw(st.integers(0, 4)) == 0:
         prog["hook_faults"] = [[draw(st.integers(0, 10000)), draw(st.sampled_from(["Exception", "AssertionError"]))]]
@@ -420,7 +430,7 @@ def explore(rec):
 
 def required_labels(tier):
     return ["capture:%d%d%d" % (a, b, c) for a in (0, 1) for b in (0, 1) for c in (0, 1)] + \
-           ["hook-emit", "failing-not-first", "step-hook-fault", "logging-level/filter", "setup_logging-in-before_all", "interrupt", "nested-steps", "cli"]
+           ["hook-emit", "failing-not-first", "step-hook-fault", "logging-level/filter", "setup_logging-in-before_all", "@capture-decorated-hooks", "interrupt", "nested-steps", "cli"]
 
 
 KNOWN_PREDICATES = {}
